@@ -237,7 +237,11 @@ fn permutation_check(e: &mut Eng, sc: &Scenario, r: &mut Rng, canonical: bool) {
                     diffs.push(format!("gas {g0} vs {g2}"));
                 }
                 for (j, i) in perm.iter().enumerate() {
-                    if m0[*i] != m2[j] {
+                    // as multisets: the order inside one solution is C02's business
+                    let (mut a, mut b) = (m0[*i].clone(), m2[j].clone());
+                    a.sort();
+                    b.sort();
+                    if a != b {
                         diffs.push(format!("computed mutations of solution {i} differ"));
                         break;
                     }
